@@ -101,6 +101,29 @@ def findSibling (fs : FS) (site : Site) (reqPath acceptEncoding : Bytes) : List 
       | .error _ => findSibling fs site reqPath acceptEncoding rest
     else findSibling fs site reqPath acceptEncoding rest
 
+/-- the path `serveFile` redirects on: the site's path prefix put back in front ("/" if empty) -/
+def fullPath (site : Site) (reqPath : Bytes) : Bytes :=
+  let up := if site.pathPrefix ≠ [slash] then site.pathPrefix ++ reqPath else reqPath
+  if up = [] then [slash] else up
+
+/-- "use contents of an index file, if present, for directory requests": the entry served and
+the path it was opened under -/
+def resolveIndex (fs : FS) (site : Site) (d : Entry) (reqPath : Bytes) : Entry × Bytes :=
+  if d.isDir then
+    match findIndex fs site.root reqPath site.indexPages with
+    | some ep => ep
+    | none => (d, reqPath)
+  else (d, reqPath)
+
+/-- the part of `serveFile` after the canonical-path redirects -/
+def staticContent (fs : FS) (site : Site) (r : Req) (d : Entry) (reqPath : Bytes) : Resp :=
+  let dp := resolveIndex fs site d reqPath
+  if dp.1.isDir || isHidden fs site.root site.hide dp.1.ino then .status 404
+  else
+    match findSibling fs site dp.2 r.acceptEncoding site.encodings with
+    | some ne => .file ne.2.ino (some ne.1)
+    | none => .file dp.1.ino none
+
 /-- `FileServer.ServeHTTP` -/
 def staticServe (fs : FS) (site : Site) (r : Req) : Resp :=
   if r.method ≠ mGET ∧ r.method ≠ mHEAD then .status 405
@@ -110,24 +133,12 @@ def staticServe (fs : FS) (site : Site) (r : Req) : Resp :=
     | .error .notExist => .status 404
     | .error .other => .status 503
     | .ok d =>
-      let up := if site.pathPrefix ≠ [slash] then site.pathPrefix ++ reqPath else reqPath
-      let up := if up = [] then [slash] else up
+      let up := fullPath site reqPath
       if d.isDir ∧ up.getLast? ≠ some slash then
         .redirect 307 (redirectLocation reqPath (urlString { r.url with path := trimSlashes up ++ [slash] }))
       else if !d.isDir ∧ up.getLast? = some slash then
         .redirect 307 (redirectLocation reqPath (urlString { r.url with path := trimSlashes up.dropLast }))
-      else
-        let (d, reqPath) :=
-          if d.isDir then
-            match findIndex fs site.root reqPath site.indexPages with
-            | some (e, p) => (e, p)
-            | none => (d, reqPath)
-          else (d, reqPath)
-        if d.isDir || isHidden fs site.root site.hide d.ino then .status 404
-        else
-          match findSibling fs site reqPath r.acceptEncoding site.encodings with
-          | some (name, e) => .file e.ino (some name)
-          | none => .file d.ino none
+      else staticContent fs site r d reqPath
 
 /-! ### browse -/
 
